@@ -97,11 +97,39 @@ def derive_regex(rng, name):
     return "^[^a-z]+$"
 
 
+def rx_dialects_agree(pat):
+    """Python's `re` is the textbook matcher for =~ only where it and Rust's regex crate read the pattern alike. They do not for:
+    set operators inside a character class (`--`, `~~`, `&&`), a `[` inside a class (nested class / POSIX class in Rust, a
+    literal in Python), and a quantifier followed by `+` (possessive in Python >= 3.11, a nested repetition in Rust)."""
+    i, n, in_class, first = 0, len(pat), False, False
+    while i < n:
+        c = pat[i]
+        if c == "\\":
+            i += 2
+            first = False
+            continue
+        if in_class:
+            if c == "]" and not first:
+                in_class = False
+            elif c == "[":
+                return False
+            elif pat[i:i + 2] in ("--", "~~", "&&"):
+                return False
+            first = False
+        else:
+            if c == "[":
+                in_class, first = True, True
+                if pat[i + 1:i + 2] == "^":
+                    i += 1
+            elif c in "?*+}" and pat[i + 1:i + 2] == "+":
+                return False
+        i += 1
+    return True
+
+
 def rx_compile(pat):
-    """Python's `re` is the textbook matcher for =~ only where it and Rust's regex crate read the pattern alike: inside a
-    character class Rust has set operators (`--`, `~~`, `&&`) and nested classes that Python takes literally."""
-    if "[" in pat and (any(x in pat for x in ("--", "~~", "&&")) or "[[" in pat or "[:" in pat):
-        raise re.error("character-class set operators / nested classes: the two regex dialects differ")
+    if not rx_dialects_agree(pat):
+        raise re.error("the two regex dialects read this pattern differently")
     return re.compile(pat)
 
 
